@@ -19,6 +19,7 @@
 (*              it LOST if the machine is already known to be lost          *)
 (*     AssignOk (repaired code) SetOk and Assign as one step under the      *)
 (*              machine's lock                                              *)
+(*     SetErr   a fatal error of the task's user code: task.Error(err)      *)
 (*     SetLost  any non-fatal failure (of the run, or of compiling the      *)
 (*              invocation on a machine that is gone): task.Set(TaskLost)   *)
 (*   the machine monitor (sliceMachine.Go), two steps because the code      *)
@@ -45,6 +46,7 @@
 EXTENDS Integers, FiniteSets, Sequences, TLC
 
 CONSTANTS Tasks, Deps, Roots,   \* the task graph: Deps \in [Tasks -> SUBSET Tasks]
+          Faulty,               \* tasks whose user code fails persistently (a fatal error, never retried)
           Mach,                 \* machines that can ever exist
           MaxKills, MaxDiscards, MaxLost,
           Variant               \* how a completed task is marked OK and registered with its machine:
@@ -106,7 +108,9 @@ Readable(t) == \A d \in Deps[t] : alive[run[t].locs[d]] /\ d \in store[run[t].lo
 
 Work(t) == /\ run[t].pc = "called"
            /\ LET m == run[t].m IN
-              IF alive[m] /\ Readable(t)
+              IF alive[m] /\ Readable(t) /\ t \in Faulty
+              THEN /\ run' = [run EXCEPT ![t].pc = "fatal"] /\ UNCHANGED store
+              ELSE IF alive[m] /\ Readable(t)
               THEN /\ store' = [store EXCEPT ![m] = @ \cup {t}]
                    /\ run' = [run EXCEPT ![t].pc = "done"]
               ELSE /\ run' = [run EXCEPT ![t].pc = "fail"] /\ UNCHANGED store
@@ -155,6 +159,12 @@ SetLost(t) == /\ \/ run[t].pc = "fail"
               /\ run' = [run EXCEPT ![t] = Idle]
               /\ UNCHANGED <<loc, alive, known, store, mtasks, pendlost, dis, kills, discards>>
 
+\* the worker reported a fatal error (user code failed): task.Error(err), not retried
+SetErr(t) == /\ run[t].pc = "fatal"
+             /\ st' = [st EXCEPT ![t] = "ERR"]
+             /\ run' = [run EXCEPT ![t] = Idle]
+             /\ UNCHANGED <<loc, alive, known, store, mtasks, pendlost, dis, closs, kills, discards>>
+
 (* environment and machine monitor *)
 Kill(m) == /\ alive[m] /\ kills < MaxKills
            /\ alive' = [alive EXCEPT ![m] = FALSE] /\ store' = [store EXCEPT ![m] = {}]
@@ -192,24 +202,24 @@ DiscardDo(t) == /\ dis[t] = "claimed"
                 /\ UNCHANGED <<loc, alive, known, pendlost, run, closs, kills, discards>>
 
 Next == \/ \E t \in Tasks : \/ Submit(t) \/ Call(t) \/ Work(t) \/ ReplyLost(t) \/ SetLoc(t) \/ SetOk(t) \/ Assign(t) \/ AssignOk(t)
-                            \/ SetLost(t) \/ MonitorMark(t) \/ DiscardClaim(t) \/ DiscardDo(t)
+                            \/ SetLost(t) \/ SetErr(t) \/ MonitorMark(t) \/ DiscardClaim(t) \/ DiscardDo(t)
                             \/ \E m \in Mach : Grant(t, m)
         \/ \E m \in Mach : Kill(m) \/ MonitorBegin(m)
 
 Spec == Init /\ [][Next]_vars
 Fair == /\ \A t \in Tasks : WF_vars(Submit(t)) /\ WF_vars(Call(t)) /\ WF_vars(Work(t)) /\ WF_vars(SetLoc(t)) /\ WF_vars(SetOk(t))
-                            /\ WF_vars(Assign(t)) /\ WF_vars(AssignOk(t)) /\ WF_vars(SetLost(t)) /\ WF_vars(MonitorMark(t)) /\ WF_vars(DiscardDo(t))
+                            /\ WF_vars(Assign(t)) /\ WF_vars(AssignOk(t)) /\ WF_vars(SetLost(t)) /\ WF_vars(SetErr(t)) /\ WF_vars(MonitorMark(t)) /\ WF_vars(DiscardDo(t))
                             /\ WF_vars(\E m \in Mach : Grant(t, m))
         /\ \A m \in Mach : WF_vars(MonitorBegin(m))
 FairSpec == Spec /\ Fair
 
 -----------------------------------------------------------------------------
 TypeOK == /\ st \in [Tasks -> States] /\ loc \in [Tasks -> Mach \cup {NoMach}]
-          /\ \A t \in Tasks : run[t].pc \in {"idle", "start", "granted", "called", "done", "fail", "located", "okset", "assigned"}
+          /\ \A t \in Tasks : run[t].pc \in {"idle", "start", "granted", "called", "done", "fail", "fatal", "located", "okset", "assigned"}
 
 \* somebody will change the state of a RUNNING task: its executor goroutine, or a Discard that has claimed it
 NoOrphanRunning == \A t \in Tasks : st[t] = "RUNNING" =>
-                      \/ run[t].pc \in {"called", "done", "fail", "located", "assigned"}
+                      \/ run[t].pc \in {"called", "done", "fail", "fatal", "located", "assigned"}
                       \/ dis[t] = "claimed"
                       \/ t \in pendlost
 \* the same for WAITING
